@@ -447,16 +447,13 @@ def native_regex_hang(w=None, limit=8):
             "        print('EXC', type(ex).__name__, flush=True)\n"
             "print('END', flush=True)\n")
     import json as _json
-    start = 0
     t0 = time.time()
-    try:
-        p = subprocess.run([sys.executable, "-c", code], input=_json.dumps([CONFIGS[cfg], srcs]), capture_output=True, text=True, timeout=limit + 0.05 * len(srcs))
-        out = p.stdout
-    except subprocess.TimeoutExpired as ex:
-        out = ex.stdout.decode() if isinstance(ex.stdout, bytes) else (ex.stdout or "")
-        nums = [int(x) for x in out.split() if x.isdigit()]
+    from contracts.c01_fuzz import run_cpu_limited
+    status, out, err = run_cpu_limited([sys.executable, "-c", code], _json.dumps([CONFIGS[cfg], srcs]), limit + 4)
+    if status != "ok" or "END" not in (out or ""):
+        nums = [int(x) for x in (out or "").split() if x.isdigit()]
         i = nums[-1] if nums else 0
-        return (True, f"config {cfg}: loading {srcs[i][:50]!r} ({len(srcs[i])} characters) did not finish within {limit} s")
+        return (True, f"config {cfg}: loading {srcs[i][:50]!r} ({len(srcs[i])} characters) did not finish within {limit} s of CPU time ({status})")
     return (False, f"{len(srcs)} adversarial sources load or fail in {time.time() - t0:.1f} s")
 
 
